@@ -57,6 +57,36 @@ func (s S) Pair() (int, string) { return s.A, s.B }
 // NewS returns a struct with the sentinel planted in the unexported field.
 func NewS() *S { s := &S{}; s.hid = HidSentinel; return s }
 
+// Holder is bridged by pointer; its fields are addressable containers reached as h.Items, h.Arr, h.Tab.
+type Holder struct {
+	Items []int
+	Names []string
+	Arr   [3]int
+	Tab   map[string]int8
+}
+
+// twinA / twinB are two DISTINCT struct types with the same name (declared in different function
+// scopes, so reflect.Type.String() is "m16.Twin" for both) that lay out the commonly named and
+// tagged fields at different indices; Z exists only in the second.
+func twinA() reflect.Type {
+	type Twin struct {
+		P int    `json:"p"`
+		Q string `json:"q"`
+		R int
+	}
+	return reflect.TypeOf(Twin{})
+}
+
+func twinB() reflect.Type {
+	type Twin struct {
+		Z bool
+		Q string `json:"q"`
+		R int
+		P int `json:"p"`
+	}
+	return reflect.TypeOf(Twin{})
+}
+
 // Named types: kinds with a different name (reflect.Call needs the exact type).
 type (
 	MyInt   int16
@@ -91,15 +121,24 @@ func (m StrIntM) Total() int {
 
 var typeTable = map[string]reflect.Type{}
 var typeNames []string
+var nameOfType = map[reflect.Type]string{}
 
-func reg(name string, sample interface{}) {
-	typeTable[name] = reflect.TypeOf(sample)
-	typeNames = append(typeNames, name)
-}
+func reg(name string, sample interface{}) { regT(name, reflect.TypeOf(sample)) }
 
 func regT(name string, t reflect.Type) {
 	typeTable[name] = t
 	typeNames = append(typeNames, name)
+	if _, dup := nameOfType[t]; !dup {
+		nameOfType[t] = name
+	}
+}
+
+// NameOf is the table name of a struct type (distinguishes the two Twin types, whose Go names agree).
+func NameOf(t reflect.Type) string {
+	if n, ok := nameOfType[t]; ok {
+		return n
+	}
+	return t.Name()
 }
 
 func init() {
@@ -156,6 +195,11 @@ func init() {
 	reg("S", S{})
 	reg("*S", (*S)(nil))
 	reg("Inner", Inner{})
+	reg("Holder", Holder{})
+	regT("TwinA", twinA())
+	regT("TwinB", twinB())
+	regT("*TwinA", reflect.PointerTo(twinA()))
+	regT("*TwinB", reflect.PointerTo(twinB()))
 	reg("*Inner", (*Inner)(nil))
 	reg("*int", (*int)(nil))
 	reg("*int8", (*int8)(nil))
